@@ -39,10 +39,11 @@ class Hist:
         for b in bodies:
             sim.add(m=b[0], x=b[1], y=b[2], z=b[3], vx=b[4], vy=b[5], vz=b[6], r=1e-4)
         sim.dt = P / 20.
-        sim.integrator = start
         if start == "whfast_unsafe":
             sim.integrator = "whfast"
             sim.ri_whfast.safe_mode = 0
+        else:
+            sim.integrator = start
         sim.collision = "direct"
         sim.collision_resolve = "merge"
         return sim
